@@ -286,3 +286,110 @@ def _g_cb_keys(tier, rnd):
 def _g_cb_noargs(tier, rnd):
     for m, k, rec in cbloom_states(tier, rnd):
         yield {"self": rec, "args": {}}
+
+
+# ---- count-min family --------------------------------------------------------------------------------------
+CMS = "probables.countminsketch.countminsketch."
+
+
+def cms_states(tier, rnd, cls="CountMinSketch", extra_args=None):
+    MAX, MIN = 2**31 - 1, -2**31
+    for w in (1, 2, 3):
+        for d in (1, 2, 3):
+            pats = [[0] * (w * d), [MAX] * (w * d), [MIN] * (w * d), [rnd.randrange(0, 9) for _ in range(w * d)],
+                    [rnd.choice([0, 1, 5, MAX - 1, MAX, MIN, MIN + 1]) for _ in range(w * d)]]
+            for cells in pats:
+                for tot in (0, 7, 2**63 - 2, -2**63 + 1):
+                    args = {"width": w, "depth": d}
+                    args.update(extra_args or {})
+                    yield w, d, {"__recipe__": CMS + cls, "args": args,
+                                 "set": {"_bins": cells, "_CountMinSketch__elements_added": tot}}
+
+
+def cms_hashes(w, d, rnd):
+    out = [[0] * d, [w - 1] * d, list(range(d)), [rnd.randrange(0, 5 * w) for _ in range(d)]]
+    return out
+
+
+@gen("CountMinSketch.add_alt", "CountMinSketch.remove_alt")
+def _g_cms_addrem(tier, rnd):
+    for w, d, rec in cms_states(tier, rnd):
+        for h in cms_hashes(w, d, rnd):
+            for n in (1, 2, 2**31, 2**32 + 5, 2**64, 2**70):
+                yield {"self": rec, "args": {"hashes": h, "num_els": n}}
+
+
+@gen("CountMinSketch.check_alt")
+def _g_cms_check(tier, rnd):
+    for w, d, rec in cms_states(tier, rnd):
+        for h in cms_hashes(w, d, rnd):
+            yield {"self": rec, "args": {"hashes": h}}
+
+
+@gen("CountMinSketch.add", "CountMinSketch.remove")
+def _g_cms_keys(tier, rnd):
+    for w, d, rec in cms_states(tier, rnd):
+        for key in ("a", "test", "b"):
+            for n in (1, 3, 2**33):
+                yield {"self": rec, "args": {"key": key, "num_els": n}}
+
+
+@gen("CountMinSketch.check")
+def _g_cms_keycheck(tier, rnd):
+    for w, d, rec in cms_states(tier, rnd):
+        for key in ("a", "test", "b"):
+            yield {"self": rec, "args": {"key": key}}
+
+
+@gen("CountMinSketch.clear")
+def _g_cms_clear(tier, rnd):
+    for w, d, rec in cms_states(tier, rnd):
+        yield {"self": rec, "args": {}}
+
+
+@gen("CountMinSketch.join")
+def _g_cms_join(tier, rnd):
+    states = list(cms_states(tier, rnd))
+    for w, d, a in states[::3]:
+        for w2, d2, b in states[::7]:
+            yield {"self": a, "args": {"second": b}}
+    yield {"self": states[0][2], "args": {"second": "nope"}}
+
+
+def _table_hash(table):
+    return {"__func__": {"kind": "table", "table": [[k, v] for k, v in table.items()], "default": [0]}}
+
+
+@gen("StreamThreshold.add_alt", "StreamThreshold.remove_alt")
+def _g_st(tier, rnd):
+    for w, d, rec in cms_states(tier, rnd, "StreamThreshold", {"threshold": 3}):
+        for table in ({}, {"b": 6}, {"a": 5, "b": 6}, {"b": 2}):
+            r = json_copy(rec)
+            r["set"]["_StreamThreshold__meets_threshold"] = {"__dict__": [[k, v] for k, v in table.items()]}
+            for h in cms_hashes(w, d, rnd)[:2]:
+                for key in ("a", "b"):
+                    for n in (1, 5):
+                        yield {"self": r, "args": {"key": key, "hashes": h, "num_els": n}}
+
+
+def json_copy(x):
+    import json
+    return json.loads(json.dumps(x))
+
+
+@gen("HeavyHitters.add_alt")
+def _g_hh(tier, rnd):
+    for nh in (1, 2, 3):
+        for w, d, rec in cms_states(tier, rnd, "HeavyHitters", {"num_hitters": nh}):
+            if rec["set"]["_bins"][0] < 0:
+                continue
+            for table in ({}, {"b": 6}, {"a": 5, "b": 6}, {"b": 2, "c": 2, "d": 9}):
+                for sm in (0, min(table.values()) if table else 0):
+                    r = json_copy(rec)
+                    r["set"]["_HeavyHitters__top_x"] = {"__dict__": [[k, v] for k, v in table.items()]}
+                    r["set"]["_HeavyHitters__top_x_size"] = len(table)
+                    r["set"]["_HeavyHitters__smallest"] = sm
+                    for h in cms_hashes(w, d, rnd)[:2]:
+                        for key in ("a", "z"):
+                            for n in (1, 7):
+                                yield {"self": r, "args": {"key": key, "hashes": h, "num_els": n}}
